@@ -49,6 +49,7 @@ type C06Op struct {
 func init() { register("C06", func() Case { return &C06Case{} }) }
 
 var c06Ops = []string{"marshal", "marshalstring", "indent", "encode", "encodeinto", "node", "raw", "stream", "decode", "gc"}
+
 // c06Cfgs: configurations under which Unmarshal([]byte) must hand out caller-owned data.
 var c06Cfgs = []sonic.API{
 	sonic.ConfigDefault, sonic.ConfigStd, sonic.ConfigFastest,
